@@ -214,6 +214,26 @@ def r15_5(ctx, fx):
                site=fn.site(fn.entry), cfg=fx.cfg)
 
 
+def r15_5b(ctx, fx):
+    """siblings: the value and provider lookups bound their in-flight requests by `pending.len()`; no request is scheduled on the edge
+    where it has reached the parallelism factor"""
+    n = 0
+    for key in sorted(fx.find(r"^protocol::libp2p::kademlia::query::(get_record::GetRecordContext|get_providers::GetProvidersContext)::next_action$")):
+        fn = fx.fn(key)
+        n += 1
+        ctx.bodies.add((fx.cfg, key))
+        is_q = lambda f, o: any(re.search(r"HashMap(<.*>)?::len$", x) for x in guards.rootstrs(f, o)) and guards.has_root(f, o, r"\.pending\b")
+        is_b = lambda f, o: guards.has_root(f, o, r"\.parallelism_factor")
+        facts = guards.edge_facts(fn, is_q, is_b)
+        full = {(sw, lab) for sw, lab, rel, cn in facts if rel in guards.IMPLIES[">="]}
+        free = {(sw, lab) for sw, lab, rel, cn in facts if rel in guards.IMPLIES["<"] or rel == "!="}
+        sched = [c.node for c in fn.calls(r"::schedule_next_peer$")]
+        r = fn.reach([fn.entry], cut=free)
+        ctx.ob("R15.5", "%s/request-scheduled-only-below-the-parallelism-factor" % short(key), bool(full) and bool(sched) and not any(x in r for x in sched),
+               site=fn.site(fn.entry), cfg=fx.cfg, detail="comparisons of pending.len() with parallelism_factor: %d" % len({cn for *_, cn in facts}))
+    ctx.anchor("R15.5", "sibling next_action bodies", n, 2, cfg=fx.cfg)
+
+
 def r15_6(ctx, fx):
     """termination test of FindNodeContext::next_action: with enough responses the lookup goes on exactly while the closest
     uncontacted candidate is closer to the target than the *furthest* reported response (`responses.last_key_value()`), so every
@@ -250,4 +270,5 @@ def run(ctx):
     r15_2(ctx, fx)
     r15_3(ctx, fx)
     r15_5(ctx, fx)
+    r15_5b(ctx, fx)
     r15_6(ctx, fx)
